@@ -264,6 +264,8 @@ def amen_solve(A, b, nswp=22, x0=None, eps=1e-10, rmax=32768, max_full=500, kick
         raise ShapeMismatch('A is not quadratic.')
     if A.N != b.N:
         raise ShapeMismatch('Dimension mismatch.')
+    if preconditioner not in (None, 'c', 'r'):
+        raise InvalidArguments("Invalid preconditioner.")
 
     if use_cpp and _flag_use_cpp:
         if x0 == None:
